@@ -1,14 +1,17 @@
 """C14 -- All image mutations happen under the exclusive lock; locks always balance."""
 import gc, json, threading, warnings, copy
 import lib, fatimg, fatspec, fatops, fattrace
-from props.c04 import new_volume, GUARD, jsonable_op, canon_spec, tree_diff
+from props.c04 import new_volume, GUARD, jsonable_op, canon_spec, canon_nobodd, sort_tree, tree_diff
 
 SPEC = {
     'rule': 'every operation of seeded histories (as C04, plus reads, listings, iterdir / glob / rglob generators that are '
             'exhausted, closed early or dropped, and atime-updating reads) is run with the file-system\'s RWLock wrapped by a '
             'recorder and the image diffed at every executed line of fs.py / path.py: each byte change must happen while '
             'the thread holds the write side, and the thread must hold nothing when the operation ends (return, raise, '
-            'discarded generator). Thorough adds 2-4 real threads on disjoint sub-trees of one volume, compared with the '
+            'discarded generator). Atomicity probe: the operation is re-run on a copy of the volume and at every release of the '
+            'exclusive lock inside it another thread reads the whole tree, which must be the tree before or after the '
+            'operation (or after the open of an open-then-write composite); always run when the stores of an operation are '
+            'spread over more than one exclusive section. Thorough adds 2-4 real threads on disjoint sub-trees of one volume, compared with the '
             'serial result. Non-trivial = operation with at least one byte change; distinct = distinct (history, operation).',
     'trusted_base': [
         'Coq 8.16.1 kernel; theorems closed under the global context',
@@ -96,9 +99,108 @@ def check_events(ctx, events, what, info, sig):
     return ok
 
 
+def sections_with_stores(events):
+    """number of separate exclusive sections (write depth 0 -> >0 -> 0) of one operation that contain a store"""
+    n, depth, stored = 0, 0, False
+    for e in events:
+        if e[0] == 'acq' and e[1] == 'w':
+            depth += 1
+        elif e[0] == 'rel' and e[1] == 'w':
+            depth -= 1
+            if depth == 0:
+                n += stored
+                stored = False
+        elif e[0] == 'poke' and depth > 0:
+            stored = True
+    return n
+
+
+def legit_states(t_before, t_after, op):
+    """the trees an observer may see between the PUBLIC operations an op of the harness consists of"""
+    out = [t_before.canon(), t_after.canon()]
+    k = op['op']
+    if (k == 'write' and op.get('via') in ('open', 'exclusive')) or k == 'append':
+        # open('wb' / 'xb' / 'ab') is a public operation of its own: it creates the file, or truncates it to nothing
+        mid = copy.deepcopy(t_before)
+        if fatops.apply_model(mid, dict(op='write', path=op['path'], data=b'', via='bytes')) == 'ok' and (k != 'append' or t_before.get(op['path']) is None):
+            out.append(mid.canon())
+    return out
+
+
+def atomicity_probe(ctx, FatFileSystem, image_before, t_before, t_after, op, info):
+    """Re-run one operation on a copy of the volume; every time the thread lets go of the exclusive lock, another
+    thread reads the whole tree through fresh paths.  What it sees must be a state of SOME serial order: the tree
+    before the operation, after it, or (for open-then-write composites) after the open."""
+    import nobodd.fs as F
+    buf = bytearray(image_before)
+    seen = []
+    state = dict(depth=0, fs=None, busy=False)
+    def observe():
+        try:
+            with warnings.catch_warnings():
+                warnings.simplefilter('ignore')
+                seen.append(sort_tree(canon_nobodd(fatspec.dump_nobodd(state['fs']))))
+        except BaseException as e:      # noqa: BLE001 -- an observer that crashes mid-operation is itself an observation
+            seen.append(f'{type(e).__name__}: {e}')
+    class W:
+        def __init__(s, inner):
+            s.inner = inner
+        def acquire(s, *a, **k):
+            r = s.inner.acquire(*a, **k)
+            if r:
+                state['depth'] += 1
+            return r
+        def release(s):
+            s.inner.release()
+            state['depth'] -= 1
+            if state['depth'] == 0 and state['busy'] and threading.current_thread() is threading.main_thread():
+                th = threading.Thread(target=observe)
+                th.start()
+                th.join(20)
+        def __enter__(s):
+            s.acquire()
+            return s
+        def __exit__(s, *exc):
+            s.release()
+    Real = F.RWLock
+    class RW(Real):
+        def __init__(s):
+            super().__init__()
+            s.write = W(s.write)
+    F.RWLock = RW
+    try:
+        with warnings.catch_warnings():
+            warnings.simplefilter('ignore')
+            fs = FatFileSystem(memoryview(buf)[GUARD:len(buf) - GUARD])
+    finally:
+        F.RWLock = Real
+    state['fs'] = fs
+    try:
+        state['busy'] = True
+        fatops.apply_impl(fs, op)
+        state['busy'] = False
+    finally:
+        state['busy'] = False
+        try:
+            fs.close()
+        except Exception:
+            pass
+    ok = [sort_tree(x) for x in legit_states(t_before, t_after, op)]
+    for k, obs in enumerate(seen):
+        ctx.stat('atomicity-observations')
+        if obs not in ok:
+            d = obs if isinstance(obs, str) else (tree_diff(ok[1], obs) or tree_diff(ok[0], obs))
+            ctx.violation('fs.atomic/intermediate-state-visible',
+                          f'{jsonable_op(op)}: a reader scheduled at the {k + 1}. release of the exclusive lock inside the operation sees a tree that is '
+                          f'neither the one before nor the one after it ({str(d)[:160]})', info)
+            return False
+    return True
+
+
 def run(ctx, build):
     R = ctx.runner('Fat')
     rng = ctx.rng
+    from nobodd.fs import FatFileSystem as _FFS
     nhist = 30 if ctx.thorough else 8
     if ctx.widen:
         nhist *= 2
@@ -119,9 +221,15 @@ def run(ctx, build):
                     need = len(op.get('data', b'')) // g.cs + 4 + (op.get('pos', 0) + op.get('size', 0)) // g.cs
                     if t.used_clusters(g.cs) + need > g.n_clusters - 6:
                         continue
+                    t_before, image_before = copy.deepcopy(t), bytes(buf)
                     fatops.apply_model(t, op)
                     res, events = tr.run(lambda: fatops.apply_impl(fs, op))
                     mutating = True
+                    if sections_with_stores(events) >= 2 or ctx.widen or ctx.thorough or i % 3 == 0:
+                        ctx.stat('atomicity-probes')
+                        if not atomicity_probe(ctx, _FFS, image_before, t_before, t, op,
+                                               dict(geometry={k: v for k, v in vars(g).items()}, history=history + [jsonable_op(op)])):
+                            return
                 jop = jsonable_op(op)
                 history.append(jop)
                 npokes = sum(1 for e in events if e[0] == 'poke')
